@@ -138,7 +138,92 @@ pub fn closure_laws(sub: &Ontology) -> Vec<String> {
 /// `--laws-only 1` (the C01 run): only the intrinsic closure laws are demanded of the result, whichever allowed result it is;
 /// `--laws-only 2` / `3` (the C02 / C03 runs): the result is compared with the specification's expectation for the retained term set
 /// it chose, but only in the annotation links / the information content (what is retained is C14's business)
+pub static NESTED_CALLS: std::sync::atomic::AtomicUsize = std::sync::atomic::AtomicUsize::new(0);
 pub static LAWS_ONLY: std::sync::atomic::AtomicU8 = std::sync::atomic::AtomicU8::new(0);
+
+/// the result `sub` against ONE allowed result of the specification (`a` = {terms, proj}): names / flags copied from the source scenario
+fn compare_allowed(sub: &Ontology, a: &Value, scn: &Scenario, conc: &Concretisation, focus: &[Focus]) -> Vec<String> {
+    let synth = json!({"arena": a["terms"], "edges": [], "facts": [], "expect": a["proj"]});
+    let (_, mut exp) = from_tlc(&synth, conc);
+    exp.order = None;
+    for t in &scn.terms {
+        if let Some(e) = exp.terms.get_mut(&t.id) {
+            e.obsolete = t.obsolete;
+            e.repl = t.repl;
+            e.name = t.name.clone();
+        }
+    }
+    // record names: the name the source was given (first name wins; every fact of a record carries the same name here)
+    for (k, kind) in KINDS.iter().enumerate() {
+        for (x, r) in exp.recs[k].iter_mut() {
+            if let Some(f) = scn.facts.iter().find(|f| f.kind == *kind && f.x == *x) {
+                r.name = f.name.clone();
+            }
+        }
+    }
+    match catch(|| compare(sub, &exp, focus)) {
+        Ok(diffs) => diffs.into_iter().filter(|x| !x.starts_with("hpo_version")).collect(),
+        Err(p) => vec![format!("reading the sub-ontology panicked: {p}")],
+    }
+}
+
+fn sorted_ids(o: &Ontology) -> Result<Vec<u32>, String> {
+    catch(|| {
+        let mut v: Vec<u32> = o.iter().map(|t| hpo::annotations::AnnotationId::as_u32(&t.id())).collect();
+        v.sort_unstable();
+        v
+    })
+}
+
+/// C14 on a sub-ontology OF a sub-ontology: the call chained on its own result (same root; the specification's nested leaf sets).
+/// The source of the second call is the first result, which has no modifier roots.
+fn check_nested(what: &str, src: &Ontology, sub: &Ontology, a: &Value, scn: &Scenario, conc: &Concretisation, root: u32, d: &mut Vec<String>) {
+    for n in arr(&a["nested"]) {
+        let leaves2: Vec<u32> = u32_list(&n["leaves"]).into_iter().map(|m| conc.get(m)).collect();
+        let sub2 = match call(sub, root, &leaves2) {
+            Err(p) => {
+                d.push(format!("{what}: chained sub_ontology({root}, {:?}) on the first result panicked: {p}", leaves2));
+                continue;
+            }
+            Ok(Err(e)) => {
+                d.push(format!("{what}: chained sub_ontology({root}, {:?}) on the first result failed ({e}) although root and leaves are retained", leaves2));
+                continue;
+            }
+            Ok(Ok(s)) => s,
+        };
+        let got = match sorted_ids(&sub2) {
+            Ok(v) => v,
+            Err(p) => {
+                d.push(format!("{what}: iterating the chained sub-ontology panicked: {p}"));
+                continue;
+            }
+        };
+        let allowed = arr(&n["allowed"]);
+        let hit = allowed.iter().find(|b| {
+            let mut t: Vec<u32> = u32_list(&b["terms"]).into_iter().map(|m| conc.get(m)).collect();
+            t.sort_unstable();
+            t == got
+        });
+        let Some(b) = hit else {
+            let all: Vec<Vec<u32>> = allowed.iter().map(|b| u32_list(&b["terms"]).into_iter().map(|m| conc.get(m)).collect()).collect();
+            d.push(format!("{what}: chained sub_ontology({root}, {:?}) on the first result retains the terms {:?}; allowed: {:?}", leaves2, got, all));
+            continue;
+        };
+        let focus = [Focus::Struct, Focus::Ann, Focus::Ic, Focus::Meta];
+        d.extend(compare_allowed(&sub2, b, scn, conc, &focus).into_iter().map(|x| format!("{what}: chained sub_ontology({root}, {:?}) on the first result: {x}", leaves2)));
+        match catch(|| closure_laws(&sub2)) {
+            Ok(l) => d.extend(l.into_iter().map(|x| format!("{what}: chained sub_ontology({root}, {:?}): {x}", leaves2))),
+            Err(p) => d.push(format!("{what}: reading the chained sub-ontology panicked: {p}")),
+        }
+        for l in &leaves2 {
+            let x = catch(|| src.hpo(*l).unwrap().distance_to_ancestor(&src.hpo(root).unwrap()));
+            let y = catch(|| sub2.hpo(*l).and_then(|t| sub2.hpo(root).and_then(|r| t.distance_to_ancestor(&r))));
+            if x != y {
+                d.push(format!("{what}: leaf {l} is {:?} steps below root {root} in the source but {:?} in the chained sub-ontology", x, y));
+            }
+        }
+    }
+}
 
 fn check_result(what: &str, src: &Ontology, scn: &Scenario, line: &Value, conc: &Concretisation, root: u32, leaves: &[u32], d: &mut Vec<String>) {
     let want_ok = line["result"]["ok"].as_bool().unwrap();
@@ -186,7 +271,7 @@ fn check_result(what: &str, src: &Ontology, scn: &Scenario, line: &Value, conc: 
         t.sort_unstable();
         t == got
     });
-    let Some(a) = hit else {
+    let Some(hit_a) = hit else {
         if mode != 0 {
             return;
         }
@@ -194,39 +279,12 @@ fn check_result(what: &str, src: &Ontology, scn: &Scenario, line: &Value, conc: 
         d.push(format!("{what}: sub_ontology({root}, {:?}) retains the terms {:?}; allowed (leaves + one shortest chain per leaf): {:?}", leaves, got, all));
         return;
     };
-    let synth = json!({"arena": a["terms"], "edges": [], "facts": [], "expect": a["proj"]});
-    let (_, mut exp) = from_tlc(&synth, conc);
-    exp.order = None;
-    for t in &scn.terms {
-        if let Some(e) = exp.terms.get_mut(&t.id) {
-            e.obsolete = t.obsolete;
-            e.repl = t.repl;
-            e.name = t.name.clone();
-        }
-    }
-    // record names: the name the source was given (first name wins; every fact of a record carries the same name here)
-    for (k, kind) in KINDS.iter().enumerate() {
-        for (x, r) in exp.recs[k].iter_mut() {
-            if let Some(f) = scn.facts.iter().find(|f| f.kind == *kind && f.x == *x) {
-                r.name = f.name.clone();
-            }
-        }
-    }
     let focus: Vec<Focus> = match mode {
         2 => vec![Focus::Ann],
         3 => vec![Focus::Ic],
         _ => vec![Focus::Struct, Focus::Ann, Focus::Ic, Focus::Meta],
     };
-    match catch(|| compare(&sub, &exp, &focus)) {
-        Ok(diffs) => {
-            for x in diffs {
-                if !x.starts_with("hpo_version") {
-                    d.push(format!("{what}: sub_ontology({root}, {:?}): {x}", leaves));
-                }
-            }
-        }
-        Err(p) => d.push(format!("{what}: reading the sub-ontology panicked: {p}")),
-    }
+    d.extend(compare_allowed(&sub, hit_a, scn, conc, &focus).into_iter().map(|x| format!("{what}: sub_ontology({root}, {:?}): {x}", leaves)));
     if mode != 0 {
         return;
     }
@@ -238,6 +296,8 @@ fn check_result(what: &str, src: &Ontology, scn: &Scenario, line: &Value, conc: 
             d.push(format!("{what}: leaf {l} is {:?} steps below root {root} in the source but {:?} in the sub-ontology", a, b));
         }
     }
+    NESTED_CALLS.fetch_add(arr(&hit_a["nested"]).len(), std::sync::atomic::Ordering::Relaxed);
+    check_nested(what, src, &sub, hit_a, scn, conc, root, d);
 }
 
 pub fn check_line(st: &mut Stats, line: &Value, only_layout: Option<usize>) -> Vec<(usize, Vec<String>)> {
@@ -319,6 +379,7 @@ pub fn run(args: &Args) {
             st.samples.push(l.clone());
         }
     }
+    st.bump("chained_calls_on_a_result", NESTED_CALLS.load(std::sync::atomic::Ordering::Relaxed) as u64);
     finish(st, args.req("out"), args.req("replay-dir"), json!({"lines": lines.len()}));
 }
 
